@@ -21,8 +21,8 @@ import life_common as lc
 from props import c09
 
 ID = "C11"
-LEAN_TARGETS = ["Strengths.Props.C11"]
-PROP_FILES = ["Strengths/Props/C11.lean"]
+LEAN_TARGETS = ["Strengths.Props.C11", "Strengths.Props.C11Refine"]
+PROP_FILES = ["Strengths/Props/C11.lean", "Strengths/Props/C11Refine.lean"]
 GEN_GROUPS = ["EngineCpp", "EngineLife", "IndexPy"]
 RULE = ("scripts: 3 engines x grid/graph (60 % degenerate shapes) x 4 policies x request styles (incl. empty) x processing modes x "
         "coarse / fine time steps; each driven to completion with explicit samples, two output fetches with a sample in between, "
